@@ -152,7 +152,7 @@ func (g *generator) walkDefinition(schema *schemaparser.Schema) (ast.Type, error
 			return g.walkUntypedConstant(schema)
 		}
 
-		return ast.Any(), nil
+		return ast.Any(ast.Default(unwrapJSONNumber(schema.Default))), nil
 	}
 
 	//nolint: gocritic
@@ -511,7 +511,7 @@ func (g *generator) walkObject(schema *schemaparser.Schema) (ast.Type, error) {
 		// `schema.AdditionalProperties` is nil or false or *schemaparser.Schema
 		_, ok := schema.AdditionalProperties.(bool)
 		if schema.AdditionalProperties == nil || ok {
-			return ast.Any(), nil
+			return ast.Any(ast.Default(unwrapJSONNumber(schema.Default))), nil
 		}
 
 		valueType, err := g.walkDefinition(schema.AdditionalProperties.(*schemaparser.Schema))
